@@ -79,6 +79,13 @@ fn main() {
                 invalid = true;
             }
         }
+        for c in &out.forbidden {
+            let n = out.stats.classes.get(c).copied().unwrap_or(0);
+            if n != 0 {
+                eprintln!("INVALID RUN: harness self-check class '{}' was hit {} times", c, n);
+                invalid = true;
+            }
+        }
     }
     let wall = start.elapsed().as_secs_f64();
     if let Err(e) = write_evidence(&ctx, &out, wall, violations, (reg_run, reg_failed)) {
